@@ -32,6 +32,13 @@ type fam struct {
 
 func never(m, n int) bool { return false }
 
+// wellQR: the Householder factorization is a continuous function of the input
+// near this family, so that two runs may be compared entry-wise. Excluded are
+// the +-1 Hadamard-like matrices: their columns are orthogonal, the pivot
+// element alpha of later reflectors is pure rounding noise and its sign, which
+// Dlarfg copies into beta, legitimately differs between summation orders.
+func (f fam) wellQR() bool { return f.well && f.name != "had" }
+
 func genDD(salt int) func(m, n int) M {
 	return func(m, n int) M {
 		a := newM(m, n)
@@ -136,7 +143,7 @@ func genRank1(m, n int) M {
 	for i := 0; i < m; i++ {
 		u := float64([]int{1, -2, 2, -1}[(i*3+1)%4])
 		for j := 0; j < n; j++ {
-			v := float64(1 + (j*5+2)%3)
+			v := float64(1 + (j*5)%3) // v[0] = 1: the first pivot is +-2, a power of two
 			if j%2 == 1 {
 				v = -v
 			}
@@ -207,7 +214,9 @@ func generalFams(maxn int, allZeroCols bool) []fam {
 		{"id", genId, never, true},
 		{"zero", genZero, func(m, n int) bool { return imin(m, n) > 0 }, false},
 		{"rank1", genRank1, func(m, n int) bool { return imin(m, n) > 1 }, false},
-		{"duprow", genDupRow, func(m, n int) bool { return m >= 2 && m <= n }, false},
+		// duprow is singular, but not "exactly" for a floating-point elimination: the multiplier of the
+		// duplicate is a*(1/a), which need not be 1 (Dgetf2 scales by the reciprocal), so ok may be true.
+		{"duprow", genDupRow, never, false},
 		{"sparse", genSparse(0), never, false},
 	}
 	var cols []int
